@@ -117,6 +117,22 @@ func runP7Sign(sc M) {
 		}
 		return e
 	})
+	if str(sc, "sig") == "leadzero" && err == nil && (ct == "data" || ct == "other") {
+		// the RSA signature value: the content is varied until the produced value begins with a zero octet (one in 256 does) or is
+		// of another length than the modulus; that SignedData is the one examined
+		want := (testKey(key).N.BitLen() + 7) / 8
+		for i := 1; i <= 8000 && err == nil; i++ {
+			if pb, perr := projectP7(der); perr == nil && len(pb.Signers) == 1 && len(pb.Signers[0].Sig) > 0 && (pb.Signers[0].Sig[0] == 0 || len(pb.Signers[0].Sig) != want) {
+				break
+			}
+			content = prbytes(fmt.Sprint("c05:", id, ":", i), size)
+			if ct == "other" {
+				content = derTLV(0x04, content)
+			}
+			signedValue = content
+			der, err = pkcs7.SignPKCS7(signer, cert, oid, content)
+		}
+	}
 	if err != nil && sc["busy"] == true {
 		// the token was busy: the caller asks again (now it answers); whatever is returned as a success must be a valid SignedData
 		o, err = guard(func() error {
